@@ -14,9 +14,11 @@ from geometry_tools.automata import coxeter_automaton as CA
 LEVEL = "other"
 EXPLANATION = (
     "PROVED in Lean (structural clauses only): the model automaton is a partial DFA on states 0..N-1 with every "
-    "target in range; no accepted word contains kk; every shortlex-accepted word is geodesic-accepted; the "
-    "even-length variant accepts exactly the even-length accepted words; braid moves and ss-deletions preserve "
-    "wordProd in Mathlib's CoxeterSystem, so a shortening move sequence certifies non-reducedness. "
+    "target in range and is the tabulation of the run on small-root sets; no accepted word contains kk; every "
+    "shortlex-accepted word is geodesic-accepted; the even-length variant (automaton_multiple's BFS included) accepts "
+    "exactly the even-length accepted words; braid moves and ss-deletions preserve wordProd in Mathlib's "
+    "CoxeterSystem and the executable certificate checker is sound, so a shortening move sequence certifies "
+    "non-reducedness (discrepancies are replayed with a Lean-checked certificate). "
     "NOT PROVED (bounded TEST only): accepted <=> reduced, shortlex uniqueness/minimality, growth series, "
     "injectivity of the canonical images. The test compares the implementation's automata, for all words up to "
     "length L, with an independent Tits braid-move solver cross-checked against enumeration of the canonical "
@@ -89,7 +91,19 @@ def _is_small(M):
 R3_LABELLED = [X.sym_matrix(3, list(l)) for l in itertools.product(ALPHA, repeat=3)]   # the shortlex language depends on the generator order
 
 
+# irreducible and reducible finite (spherical) and affine types of rank 4 with small automata: A4, B4, D4, F4, A1xH3,
+# affine A3~, B3~, C3~ (the random rank-4/5 samples are restricted to indefinite forms, because H4, B5, F4~ ... have
+# 10^4..10^5 states)
+SPECIAL4 = [X.sym_matrix(4, l) for l in ([3, 2, 2, 3, 2, 3], [3, 2, 2, 3, 2, 4], [3, 2, 2, 3, 3, 2], [3, 2, 2, 4, 2, 3],
+                                         [2, 2, 2, 3, 2, 5], [3, 2, 3, 3, 2, 3], [2, 3, 2, 3, 2, 4], [4, 2, 2, 3, 2, 4])]
+
+
 def _big(rng):
+    if rng.random() < 0.12:
+        M = rng.choice(SPECIAL4)
+        p = list(range(4))
+        rng.shuffle(p)
+        return [[M[p[i]][p[j]] for j in range(4)] for i in range(4)]
     while True:
         r = rng.choice([4, 4, 4, 5])
         M = X.rand_matrix(rng, r, finite=(2, 7), p_inf=0.2, p_two=0.35)
@@ -103,6 +117,7 @@ def matrices(rng, n, exhaustive3=False):
     out = [_sym(_variants(rng, M)) for M in R2]
     if exhaustive3:
         out += [_sym(_variants(rng, M)) for M in R3_LABELLED]
+        out += SPECIAL4
         while len(out) < n:
             out.append(_big(rng))
         return out
@@ -255,6 +270,9 @@ def run_even(inp):
     n = len(names)
     tab = [[aut.graph_dict.get(s, {}).get(names[k]) for k in range(n)] for s in range(len(aut.graph_dict))]
     lab = {names[a] + names[b]: a * n + b for a in range(n) for b in range(n)}
+    unknown = sorted({str(l) for nb in ev.graph_dict.values() for l in nb if l not in lab})
+    if unknown:
+        return {"table": tab, "even": None, "unknown_labels": unknown[:5], "starts": list(ev.start_vertices), "n": n}
     g = {v: {lab[l]: t for l, t in nb.items()} for v, nb in ev.graph_dict.items()}
     return {"table": tab, "even": canon_graph(g), "starts": list(ev.start_vertices), "n": n}
 
@@ -268,6 +286,9 @@ def lean_even(inp, obs):
 def judge_even(inp, obs, lr):
     if "exc" in obs:
         return {"expected": "even automaton", "observed": obs, "tags": {"exc": obs["exc"]}, "property_failure": True}
+    if "unknown_labels" in obs:
+        return {"expected": "every label of the even automaton is the concatenation of two generator names of this group",
+                "observed": obs["unknown_labels"], "tags": {"what": "even-labels"}, "property_failure": True}
     if not lr or "skipped" in obs:
         return None
     if "err" in lr[0]:
@@ -304,6 +325,36 @@ def braid_class(w, M):
                 seen.add(v)
                 todo.append(v)
     return seen
+
+
+def certificate(w, M):
+    """shortest sequence of braid moves from w to a word with a square, then the deletion of that square:
+    [["b", pos], ..., ["s", pos]] (positions as the Lean checker `checkCert` expects), or None"""
+    w = tuple(w)
+    prev, todo = {w: None}, [w]
+    while todo:
+        nxt = []
+        for u in todo:
+            if has_square(u):
+                steps = [["s", next(i for i in range(len(u) - 1) if u[i] == u[i + 1])]]
+                while prev[u] is not None:
+                    u, pos = prev[u]
+                    steps.append(["b", pos])
+                return steps[::-1]
+            n = len(u)
+            for p in range(n - 1):
+                a, b = u[p], u[p + 1]
+                if a == b:
+                    continue
+                m = M[a][b]
+                if m <= 0 or p + m > n or not all(u[p + t] == (a if t % 2 == 0 else b) for t in range(m)):
+                    continue
+                v = u[:p] + tuple((b if t % 2 == 0 else a) for t in range(m)) + u[p + m:]
+                if v not in prev:
+                    prev[v] = (u, p)
+                    nxt.append(v)
+        todo = nxt
+    return None
 
 
 def has_square(w):
@@ -345,6 +396,8 @@ def _tier():
 
 def gen_lang(rng, n):
     tier = _tier()
+    if tier != "thorough":
+        n = min(n, 600)      # the runner's escalated search asks for 10x; the exhaustive part is already in the first 358
     for M in matrices(rng, n, exhaustive3=True):
         style = rng.choice(["alpha", "alphanum"])
         yield {"M": M, "style": style, "L": oracle_L(len(M), tier)}
@@ -365,6 +418,9 @@ def accepted(aut, names, L, even=False):
         if len(w) >= L:
             continue
         for l, t in aut.graph_dict.get(v, {}).items():
+            if l not in inv:
+                out.add(("unknown label", str(l)))      # shows up as a language difference
+                continue
             stack.append((t, w + (inv[l] if even else (inv[l],))))
     return out
 
@@ -395,8 +451,8 @@ def run_lang(inp):
         bad["geodesic"] = {"accepted_not_reduced": d1[:3], "reduced_not_accepted": d2[:3]}
         if d1:
             # certificate: braid class member with a square
-            c = braid_class(tuple(d1[0]), M)
-            bad["geodesic"]["certificate"] = next((list(v) for v in c if has_square(v)), None)
+            # certificate of non-reducedness for the first such word, checked by the Lean `checkCert` (c07.cert)
+            bad["geodesic"]["certificate"] = {"word": list(d1[0]), "steps": certificate(d1[0], M)}
     if A_lex != nf:
         bad["shortlex"] = {"accepted_not_normal_form": sorted(A_lex - nf)[:3], "normal_form_not_accepted": sorted(nf - A_lex)[:3]}
     ev_geo = {w for w in A_geo if len(w) % 2 == 0}
@@ -458,11 +514,22 @@ def run_lang(inp):
     return out
 
 
+def lean_lang(inp, obs):
+    c = (obs.get("bad") or {}).get("geodesic", {}).get("certificate") if isinstance(obs, dict) else None
+    if not c or not c.get("steps"):
+        return []
+    M0 = [[(x if x > 0 else 0) for x in row] for row in inp["M"]]
+    return [{"op": "c07.cert", "M": M0, "word": c["word"], "steps": c["steps"]}]
+
+
 def judge_lang(inp, obs, lr):
     if "exc" in obs:
         return {"expected": "automata", "observed": obs, "tags": {"exc": obs["exc"]}}
     if obs["bad"]:
-        what = sorted(obs["bad"])[0]
+        if lr:
+            obs["bad"]["geodesic"]["certificate"]["lean_checkCert"] = lr[0]
+        pref = ["geodesic", "shortlex", "even", "growth", "injective", "length", "enumerate_words", "api_image"]
+        what = sorted(obs["bad"], key=lambda k: pref.index(k) if k in pref else 99)[0]
         return {"expected": {"geodesic": "accepted words = reduced words", "shortlex": "accepted = least reduced expression of each element",
                              "even": "even automaton = even-length accepted words", "growth": "counts = growth series",
                              "injective": "distinct shortlex words have distinct canonical images"}.get(what, what),
@@ -479,8 +546,8 @@ CLAUSES = [
     Clause("even_corr", "corr", gen_even, run_even, judge_even, lean=lean_even,
            site="coxeter.CoxeterGroup.automaton(even_length=True) / fsa.automaton_multiple", budget={"quick": 80, "thorough": 1200},
            what="even_automaton of the implementation's table vs Lean evenAutomaton (up to BFS renumbering)"),
-    Clause("language_oracle", "oracle", gen_lang, run_lang, judge_lang,
-           site="coxeter.CoxeterGroup.automaton", budget={"quick": 400, "thorough": 1500},
+    Clause("language_oracle", "oracle", gen_lang, run_lang, judge_lang, lean=lean_lang,
+           site="coxeter.CoxeterGroup.automaton", budget={"quick": 400, "thorough": 1000},
            what="BOUNDED TEST of the unproved clause: accepted words up to length L vs independent Tits braid-move solver and "
                 "canonical-representation enumeration: geodesic = reduced, shortlex = least reduced expression (one per element), "
                 "even variants, growth counts, injectivity of canonical images"),
